@@ -1,0 +1,70 @@
+//go:build verif
+
+package blake2s
+
+import "golang.org/x/sys/cpu"
+
+// Verification hooks for property C05 (and C06): force each hashBlocks
+// implementation in turn. Compiled only with the "verif" build tag.
+
+// VerifC05Paths lists the hashBlocks implementations this CPU can run, fastest first.
+// "generic" is always present.
+func VerifC05Paths() []string {
+	var p []string
+	if cpu.X86.HasSSE41 {
+		p = append(p, "SSE4")
+	}
+	if cpu.X86.HasSSSE3 {
+		p = append(p, "SSSE3")
+	}
+	if cpu.X86.HasSSE2 {
+		p = append(p, "SSE2")
+	}
+	return append(p, "generic")
+}
+
+// VerifC05SetPath makes hashBlocks dispatch to the named implementation. It reports
+// false (and changes nothing) if the name is unknown or the CPU lacks the feature.
+// Not safe for use concurrently with hashing.
+func VerifC05SetPath(name string) bool {
+	switch name {
+	case "SSE4":
+		if !cpu.X86.HasSSE41 {
+			return false
+		}
+		useSSE4, useSSSE3, useSSE2 = true, false, false
+	case "SSSE3":
+		if !cpu.X86.HasSSSE3 {
+			return false
+		}
+		useSSE4, useSSSE3, useSSE2 = false, true, false
+	case "SSE2":
+		if !cpu.X86.HasSSE2 {
+			return false
+		}
+		useSSE4, useSSSE3, useSSE2 = false, false, true
+	case "generic":
+		useSSE4, useSSSE3, useSSE2 = false, false, false
+	default:
+		return false
+	}
+	return true
+}
+
+// VerifC05RestorePath restores the dispatch flags chosen at start-up from the CPU features.
+func VerifC05RestorePath() {
+	useSSE4, useSSSE3, useSSE2 = cpu.X86.HasSSE41, cpu.X86.HasSSSE3, cpu.X86.HasSSE2
+}
+
+// VerifC05CurrentPath names the implementation hashBlocks currently dispatches to.
+func VerifC05CurrentPath() string {
+	switch {
+	case useSSE4:
+		return "SSE4"
+	case useSSSE3:
+		return "SSSE3"
+	case useSSE2:
+		return "SSE2"
+	}
+	return "generic"
+}
